@@ -915,7 +915,17 @@ def fault_base_case(rnd, cid):
     def unit():
         r = rnd.random()
         if r < 0.25: return [J.Out(call())]
-        if r < 0.4: return [J.For(J.TName("x"), rnd.choice([call("f3"), N("it"), N("l1")]), [J.Out(N("x")), J.Out(call("f1", N("x"))), J.Text(",")])]
+        if r < 0.4:
+            body = [J.Out(N("x")), J.Out(call("f1", N("x"))), J.Text(",")]
+            k = rnd.random()
+            if k < 0.25:
+                body.insert(rnd.choice([0, 2]), J.If([J.Cmp(N("x"), ("eq", C(rnd.choice([4, 5, 6]))))], [[J.BREAK]]))      # the loop is left early
+            elif k < 0.5:
+                body.append(J.Out(J.Getattr(N("loop"), rnd.choice(["last", "length", "index", "nextitem", "revindex", "first"]))))
+            flt = J.Cmp(N("x"), ("ne", C(rnd.choice([4, 5, 6])))) if rnd.random() < 0.2 else None
+            return [J.For(J.TName("x"), rnd.choice([call("f3"), N("it"), N("it"), N("l1")]), body, None, flt)]
+        if r < 0.44:
+            return [J.Out(J.Filter(N("it"), rnd.choice(["list", "join", "sum"])))]
         if r < 0.55: return [J.Out(rnd.choice([J.Getattr(N("o1"), "a"), J.Getitem(N("o1"), C("a")), J.Getattr(N("o1"), "ra"),
                                                 J.Getitem(N("o1"), C("rk")), J.Getattr(N("o1"), "zz"), N("o1")]))]
         if r < 0.6: return [J.If([call("f2")], [[J.Text("T"), J.Out(call())]], [J.Text("F")])]
